@@ -11,19 +11,12 @@ Definition golden_any_wild : str := [40;94;91;42;93;91;42;93;36;124;40;63;60;61;
 Definition golden_any_wild_flags : N := 32.
 Definition golden_fingerprints : list str := [
   [54;48;99;49;57;56;53;48;102;51;101;102;52;57;54;50;50;56;97;52;97;98;51;53;102;101;101;53;56;98;102;100]%N (* conv_regex 60c19850f3ef496228a4ab35fee58bfd *);
-  [57;50;102;56;55;98;51;52;99;57;57;97;101;100;53;56;50;51;51;49;56;100;48;54;52;48;97;56;101;56;53;57]%N (* conv_glob 92f87b34c99aed5823318d0640a8e859 *);
-  [54;53;51;99;56;52;97;55;56;49;56;56;100;57;52;98;51;97;55;97;97;99;48;52;56;54;48;56;49;102;56;54]%N (* get_wildcard_name 653c84a78188d94b3a7aac0486081f86 *);
   [56;56;55;50;49;49;52;98;51;54;53;97;50;53;57;56;54;98;52;55;54;48;102;99;97;97;52;52;53;48;50;49]%N (* iter_wildcard_names 8872114b365a25986b4760fcaa445021 *);
   [53;51;97;97;53;102;97;100;49;48;50;98;51;57;53;48;52;99;98;57;53;57;50;53;57;101;102;48;57;49;101;54]%N (* has_anonymous_wildcards 53aa5fad102b39504cb959259ef091e6 *);
   [97;54;98;48;52;50;100;55;48;48;57;54;101;99;52;102;102;54;97;102;49;53;57;51;49;99;97;52;53;57;51;53]%N (* default_used_names a6b042d70096ec4ff6af15931ca45935 *);
   [101;98;97;50;54;98;50;99;102;50;56;55;54;56;52;97;56;49;48;55;98;53;53;100;55;98;49;49;56;98;56;54]%N (* default_glob eba26b2cf287684a8107b55d7b118b86 *);
   [100;102;54;53;48;102;48;99;48;55;97;97;99;100;48;54;52;100;56;100;49;55;100;101;98;97;52;97;100;54;98;56]%N (* default_regex df650f0c07aacd064d8d17deba4ad6b8 *);
-  [97;99;53;53;97;100;53;49;98;101;100;54;102;56;102;57;55;57;100;53;49;52;48;99;55;101;51;54;50;48;102;101]%N (* match_values ac55ad51bed6f8f979d5140c7e3620fe *);
-  [97;48;99;101;97;100;49;97;54;54;52;101;55;99;50;55;54;97;49;101;54;99;100;51;102;52;99;51;50;48;49;99]%N (* extend a0cead1a664e7c276a1e6cd3f4c3201c *);
-  [56;50;48;48;100;53;50;52;51;101;48;53;54;100;52;55;54;55;99;48;101;50;98;56;51;53;56;99;51;101;57;98]%N (* reduce 8200d5243e056d4767c0e2b8358c3e9b *);
   [50;52;48;53;99;101;98;50;50;48;50;101;50;55;52;100;51;54;99;51;50;55;50;48;57;52;98;50;49;57;55;57]%N (* glob 2405ceb2202e274d36c3272094b21979 *);
-  [52;55;52;57;98;99;55;56;99;101;55;98;99;54;101;51;102;53;49;52;57;101;50;100;100;48;53;56;100;57;97;53]%N (* will_change 4749bc78ce7bc6e3f5149e2dd058d9a5 *);
-  [51;53;50;52;48;54;52;99;99;101;101;99;102;50;100;100;57;56;55;100;50;50;100;50;53;101;101;102;51;99;102;52]%N (* files 3524064cceecf2dd987d22d25eef3cf4 *);
   [53;97;50;100;56;98;53;53;101;53;56;102;54;99;48;52;53;102;101;56;49;97;56;53;100;52;51;101;54;57;50;53]%N (* process_nglob_changes 5a2d8b55e58f6c045fe81a85d43e6925 *);
   [102;51;102;97;53;57;55;56;55;50;99;98;57;48;57;101;52;48;97;49;52;98;101;53;98;57;100;53;102;102;48;102]%N (* rescan_nglobs f3fa597872cb909e40a14be5b9d5ff0f *)
 ].
